@@ -143,6 +143,17 @@ CasesC03(lazy) ==
   \cup { Case(FsOf(<<Plain("a", 0, 1), Plain("k", 0, 2), WithParent("a.b", 0, 3, S("k"))>>,
                    << <<"z.link", "yaml", "a.b." \o ExtAt(3, 0)>> >>),
               <<"z.link.yaml">>, FALSE, "/", "symlinkdirective", Chains(<< <<"k", "a.b">> >>)) : dummy \in {1} }
+  (* a link to a link: the layer inherits from the name of the FINAL target, whatever the hops are called *)
+  \cup { Case(FsOf(<<Plain("a", rot, 1), Plain("a.b", rot, 2), Plain("cur", rot, 3)>>,
+                   << <<"hop", ExtAt(2, rot), "a.b." \o ExtAt(2, rot)>>, <<"c", ExtAt(2, rot), "hop." \o ExtAt(2, rot)>> >>),
+              <<"c." \o ExtAt(2, rot)>>, FALSE, "/", "symlink2", Chains(<< <<"a", "a.b">> >>)) : rot \in {0, 1, 2} }
+  (* ... also when the two-hop link is an intermediate layer found by the filename rule, or named by $parent *)
+  \cup { Case(FsOf(<<Plain("a", 0, 1), Plain("a.b", 0, 2), Plain("c.d", 0, 3)>>,
+                   << <<"hop", ExtAt(2, 0), "a.b." \o ExtAt(2, 0)>>, <<"c", ExtAt(2, 0), "hop." \o ExtAt(2, 0)>> >>),
+              <<"c.d." \o ExtAt(3, 0)>>, FALSE, "/", "symlink2", Chains(<< <<"a", "a.b", "c.d">> >>)) : dummy \in {1} }
+  \cup { Case(FsOf(<<Plain("a", 0, 1), Plain("a.b", 0, 2), WithParent("top", 0, 3, S("c"))>>,
+                   << <<"hop", ExtAt(2, 0), "a.b." \o ExtAt(2, 0)>>, <<"c", ExtAt(2, 0), "hop." \o ExtAt(2, 0)>> >>),
+              <<"top." \o ExtAt(3, 0)>>, FALSE, "/", "symlink2", Chains(<< <<"a", "a.b", "top">> >>)) : dummy \in {1} }
   (* several inputs, left to right; with and without -P *)
   \cup { Case(FsOf(<<Plain("a", rot, 1), Plain("a.b", rot, 2), Plain("c", rot, 3), Plain("c.d", rot, 4)>>, <<>>),
               <<"a.b." \o ExtAt(2, rot), "c.d." \o ExtAt(4, rot)>>, sk, "/", "inputs",
